@@ -2,6 +2,18 @@
 #include <stdint.h>
 #include <stddef.h>
 #define __builtin_is_constant_evaluated() true
+// Strict floating-point exception semantics (clang = solver build only): every source-level floating-point operation of the
+// constant-evaluation path stays one (constrained) IR operation - no folding of `n * -1` into fneg, no speculation - and the
+// translator attaches the LL_CEFP_* obligations of engine/ll_prelude.h to it: an operation whose result is a NaN, overflows or
+// divides by zero, and an out-of-range float -> integer conversion, are not permitted in a constant expression ([expr.pre]/4;
+// gcc and clang reject them), i.e. constant evaluation would FAIL for that argument. Values are unchanged (default rounding mode).
+// Only in the "constant evaluation cannot fail" queries of C13 (cfg CEQ=1, UB build); the functional queries and C02 use the plain build.
+#ifndef CEQ
+#define CEQ 0
+#endif
+#if defined(__clang__) && CEQ
+#pragma clang fp exceptions(strict)
+#endif
 #define KPRE kc_
 #include "body.h"
 static_assert(etl::floor(1.5F) == 1.0F); // the macro does not disturb real constant evaluation in this TU
